@@ -338,6 +338,38 @@ class MapView:
     __hash__ = None
 
 
+class SetView:
+    """heap set of objects bound to a heap snapshot: membership array, set sums (pyvc/setsum.py)"""
+
+    def __init__(self, spec, t, ty, heap):
+        self._spec, self.t, self.ty, self._heap = spec, t, ty, heap
+
+    @property
+    def id(self):
+        return Z.Val.id(self.t)
+
+    @property
+    def mem(self):
+        return z3.Select(self._spec.ctx.rd(self._heap, "$mhas"), self.id)
+
+    def has(self, x):
+        return z3.Select(self.mem, _term(x))
+
+    def sum(self, field, heap=None):
+        from . import setsum
+
+        setsum.ensure_axioms(self._spec.ctx)
+        return setsum.ssum(self.mem, self._spec.ctx.rd(heap if heap is not None else self._heap, field))
+
+    @property
+    def card(self):
+        from . import setsum
+
+        return setsum.scard(self.mem)
+
+    __hash__ = None
+
+
 class TupleView:
     def __init__(self, spec, t, ty, heap):
         self._spec, self.t, self.ty, self._heap = spec, t, ty, heap
@@ -403,6 +435,8 @@ class Spec:
             return TupleView(self, t, ty, heap)
         if isinstance(ty, TMap):
             return MapView(self, t, ty, heap)
+        if type(ty).__name__ == "TSet":
+            return SetView(self, t, ty, heap)
         if isinstance(ty, (TObj, TAbs, TExc, TFn, TRef)):
             if isinstance(ty, TObj):
                 self.ctx.resolve_ty(ty)
@@ -410,13 +444,13 @@ class Spec:
         return AnyView(t)
 
     def old(self, x):
-        for cls in (ObjView, SeqView, MapView, TupleView):
+        for cls in (ObjView, SeqView, MapView, TupleView, SetView):
             if isinstance(x, cls):
                 return cls(self, x.t, x.ty, self.old_heap)
         return x
 
     def new(self, x):
-        for cls in (ObjView, SeqView, MapView, TupleView):
+        for cls in (ObjView, SeqView, MapView, TupleView, SetView):
             if isinstance(x, cls):
                 return cls(self, x.t, x.ty, self.new_heap)
         return x
